@@ -64,8 +64,10 @@ static void run_case(const std::string& cid, Toks& t) {
     std::string cls = t.next(), sco = t.next(), sin = t.next(), srl = t.next();
     double theta = t.next_num();
     int max_coarse = t.next_int(), K = t.next_int(), dump = t.next_int();
-    std::string prep = t.next(); int sweeps = 1;       // "<asis|diagfirst>[/num_smooth_sweeps]"
-    { size_t q = prep.find('/'); if (q != std::string::npos) { sweeps = atoi(prep.c_str() + q + 1); prep = prep.substr(0, q); } }
+    std::string prep = t.next(); int sweeps = 1, psteps = 1;       // "<asis|diagfirst>[/num_smooth_sweeps[/prolong_smooth_steps]]"
+    { size_t q = prep.find('/'); if (q != std::string::npos) { sweeps = atoi(prep.c_str() + q + 1);
+        size_t q2 = prep.find('/', q + 1); if (q2 != std::string::npos) psteps = atoi(prep.c_str() + q2 + 1);
+        prep = prep.substr(0, q); } }
     std::string fmt = t.next(); if (fmt != "csr") throw std::runtime_error("csr literal expected");
     int nr = t.next_int(), nc = t.next_int(), nnz = t.next_int();
     std::vector<int> p = t.ints(nr + 1), c = t.ints(nnz); std::vector<double> v = t.nums(nnz);
@@ -77,7 +79,8 @@ static void run_case(const std::string& cid, Toks& t) {
         if (prep == "diagfirst") { A->sort(); A->move_diag(); }
         Multilevel* ml;
         if (cls == "seq_rs") ml = new RugeStubenSolver(theta, coarsen_of(sco), interp_of(sin), Classical, rl);
-        else ml = new SmoothedAggregationSolver(theta, MIS, JacobiProlongation, Symmetric, rl);
+        else { SmoothedAggregationSolver* sa = new SmoothedAggregationSolver(theta, MIS, JacobiProlongation, Symmetric, rl);
+               sa->prolong_smooth_steps = psteps; ml = sa; }
         ml->max_coarse = max_coarse; ml->relax_weight = 1.0; ml->num_smooth_sweeps = sweeps;
         ml->setup(A);
         { std::ostringstream o; o << ml->num_levels; for (int l = 0; l < ml->num_levels; l++) o << " " << ml->levels[l]->A->n_rows;
@@ -117,7 +120,7 @@ static void run_case(const std::string& cid, Toks& t) {
         if (prep == "diagfirst") { A->sort(); A->on_proc->move_diag(); }
         ParMultilevel* ml;
         if (cls == "par_rs") ml = new ParRugeStubenSolver(theta, coarsen_of(sco), interp_of(sin), Classical, rl);
-        else ml = new ParSmoothedAggregationSolver(theta, MIS, JacobiProlongation, Symmetric, rl);
+        else ml = new ParSmoothedAggregationSolver(theta, MIS, JacobiProlongation, Symmetric, rl, psteps);
         ml->max_coarse = max_coarse; ml->relax_weight = 1.0; ml->num_smooth_sweeps = sweeps;
         ml->setup(A);
         { std::ostringstream o; o << ml->num_levels; for (int l = 0; l < ml->num_levels; l++) o << " " << ml->levels[l]->A->global_num_rows;
